@@ -1275,6 +1275,75 @@ def r165(ctx, repo):
     ctx.ob("R16.5", ok, "request size and invalid-handling are forwarded"
            if ok else "samples / remove_invalid are not forwarded unchanged",
            node=c, label="scatter forwards request")
+    # the data handed out are not modified in place – nor through an alias
+    # (`_apply_scale` can return its argument for a linear axis)
+    scale_f = repo.func(CORE, "RTDCBase._apply_scale")
+    sp0 = [a_.arg for a_ in scale_f.args.args][0]
+    cal = {sp0}
+    grew = True
+    while grew:
+        grew = False
+        for n_ in walk(scale_f):
+            if isinstance(n_, ast.Assign) and isinstance(
+                    n_.value, ast.Name) and n_.value.id in cal:
+                for t_ in n_.targets:
+                    if isinstance(t_, ast.Name) and t_.id not in cal:
+                        cal.add(t_.id)
+                        grew = True
+    may_alias = any(isinstance(r_.value, ast.Name) and r_.value.id in cal
+                    for r_ in returns_of(scale_f))
+    for raw in (x[0], y[0]):
+        al = {raw}
+        changed = True
+        while changed:
+            changed = False
+            for n_ in walk(f):
+                if isinstance(n_, ast.Assign) and len(n_.targets) == 1 \
+                        and isinstance(n_.targets[0], ast.Name):
+                    t_, v_ = n_.targets[0].id, n_.value
+                    src = None
+                    if isinstance(v_, ast.Name):
+                        src = v_.id
+                    elif isinstance(v_, ast.Call) and last_attr(
+                            v_) == "_apply_scale" and may_alias:
+                        a_ = kwarg(v_, "a", 0)
+                        src = a_.id if isinstance(a_, ast.Name) else None
+                    elif isinstance(v_, ast.Call) and call_name(v_) in (
+                            "np.asarray", "np.atleast_1d"):
+                        src = v_.args[0].id if v_.args and isinstance(
+                            v_.args[0], ast.Name) else None
+                    if src in al and t_ not in al:
+                        al.add(t_)
+                        changed = True
+                elif isinstance(n_, ast.For) and isinstance(
+                        n_.target, ast.Name) and isinstance(
+                        n_.iter, (ast.Tuple, ast.List)) and any(
+                        isinstance(e_, ast.Name) and e_.id in al
+                        for e_ in n_.iter.elts) and n_.target.id not in al:
+                    al.add(n_.target.id)
+                    changed = True
+        hits = []
+        for nm in sorted(al):
+            for s_ in stores_into(f, nm):
+                inplace = isinstance(s_, ast.AugAssign) or (
+                    isinstance(s_, ast.Assign) and any(
+                        isinstance(t_, (ast.Subscript, ast.Attribute))
+                        and (t_.value.id if isinstance(
+                            t_.value, ast.Name) else None) == nm
+                        for t_ in s_.targets)) or isinstance(s_, ast.Expr)
+                if inplace:
+                    hits.append((nm, s_))
+        ctx.ob("R16.5", not hits,
+               f"`{raw}` (the filtered feature data handed out) is not "
+               f"modified in place, nor through its aliases {sorted(al)}"
+               if not hits else
+               f"`{short(hits[0][1], 40)}` writes into `{hits[0][0]}`, "
+               f"which can be the same array as `{raw}`"
+               + (" (`_apply_scale` returns its argument for a linear axis)"
+                  if hits[0][0] != raw else "")
+               + f": the returned data differ from self[..][mask]",
+               node=hits[0][1] if hits else c,
+               label=f"scatter data {raw} unaltered")
     # every normal path to a return runs the sampler (no short-cut that
     # skips the request size / invalid handling)
     cfg = CFG(f)
@@ -1505,10 +1574,35 @@ def r166(ctx, repo):
     if isinstance(pv, ast.Name):
         d = single_def(upd, pv.id)
         pv = d.value if d is not None else pv
-    if not (isinstance(pv, ast.Subscript) and isinstance(
-            pv.value, ast.Name)):
+    # strip copies: arr[arr].copy(), np.array(arr[arr])
+    while isinstance(pv, ast.Call) and (
+            (last_attr(pv) == "copy" and isinstance(pv.func, ast.Attribute))
+            or call_name(pv) in ("np.array", "np.copy")):
+        pv = pv.func.value if last_attr(pv) == "copy" and isinstance(
+            pv.func, ast.Attribute) and not pv.args else pv.args[0]
+    base = pv
+    while isinstance(base, (ast.Subscript, ast.Attribute)):
+        if isinstance(base, ast.Attribute) and isinstance(
+                base.value, ast.Name) and base.value.id == "self":
+            break
+        base = base.value
+    state = isinstance(base, ast.Attribute)
+    fresh_sel = isinstance(pv, ast.Subscript) and isinstance(
+        pv.value, ast.Name) and isinstance(pv.slice, ast.Name) \
+        and pv.slice.id == pv.value.id
+    if not state and not fresh_sel:
         raise AnalysisError("Filter.update: pool of the event-limit draw "
-                            "not understood")
+                            f"`{short(pv, 40)}` not understood")
+    ctx.ob("R16.6", fresh_sel,
+           f"the pool of the draw is `{short(pv, 30)}`, a fresh copy of the "
+           "currently selected events (boolean-mask indexing)" if fresh_sel
+           else f"the pool of the draw is `{short(pv, 40)}`, state of the "
+           "Filter instance that survives the call (a slice is a view): "
+           "`False` written into it by earlier updates is still there – the "
+           "limited selection depends on the history", node=c,
+           label="limit pool is a fresh selection")
+    if not fresh_sel:
+        return
     arr = pv.value.id
     cfg = CFG(upd)
     last = block.body[-1]
@@ -1557,12 +1651,13 @@ def run(ctx):
              minimum=1)
     ctx.rule("R16.5", "get_downsampled_scatter: same selection for data "
              "and mask write-back, unscaled data under the sampler's mask; "
-             "every path samples; the mask is a new array; per-axis scale",
-             minimum=11)
+             "every path samples; the mask is a new array; per-axis scale; "
+             "returned data unaltered (aliases through _apply_scale)",
+             minimum=13)
     ctx.rule("R16.6", "the event-limit block of Filter.update keeps no "
              "state on the instance that a later update reads; the draw does "
              "not depend on instance state; the limit is the last narrowing "
-             "step", minimum=3)
+             "step; the pool is a fresh selection", minimum=4)
     r161(ctx, repo)
     r162(ctx, repo)
     r163(ctx, repo)
@@ -1698,6 +1793,25 @@ MUTANTS = [
       ("                arr_all[arr_all] = sub\n",
        "                arr_all[arr_all] = sub\n"
        "                self._limited = True\n")], "R16.6"),
+    ("scatter: inf replaced in place in the scaled arrays (seeded C16_9)",
+     CORE,
+     ("        ys = RTDCBase._apply_scale(y, yscale, yax)\n",
+      "        ys = RTDCBase._apply_scale(y, yscale, yax)\n"
+      "        for sc in (xs, ys):\n"
+      "            if sc.dtype.kind == \"f\":\n"
+      "                sc[np.isinf(sc)] = np.nan\n", 0), "R16.5"),
+    ("scatter: nan replaced in the data handed out", CORE,
+     ("        xs = RTDCBase._apply_scale(x, xscale, xax)\n",
+      "        x[np.isnan(x)] = 0\n"
+      "        xs = RTDCBase._apply_scale(x, xscale, xax)\n", 0), "R16.5"),
+    ("limit: pool is a persistent buffer of the instance", FILT,
+     [("        self._old_config = {}\n\n    def update(",
+       "        self._old_config = {}\n"
+       "        self._limit_buffer = np.ones(self.size, dtype=bool)\n\n"
+       "    def update("),
+      ("                sub = arr_all[arr_all]\n",
+       "                sub = self._limit_buffer[:np.sum(arr_all)]\n")],
+     "R16.6"),
     ("scatter: y scaled with the x scale", CORE,
      ("        ys = RTDCBase._apply_scale(y, yscale, yax)\n",
       "        ys = RTDCBase._apply_scale(y, xscale, yax)\n", 0), "R16.5"),
@@ -1763,6 +1877,14 @@ TWINS = [
       "        # Mask is a boolean array of len(self)\n"
       "        mask = np.zeros(len(self), dtype=bool)\n"
       "        if ret_mask:\n")),
+    ("limit: pool copied explicitly", FILT,
+     ("                sub = arr_all[arr_all]\n",
+      "                sub = arr_all[arr_all].copy()\n")),
+    ("scatter: inf replaced in private copies of the scaled arrays", CORE,
+     ("        ys = RTDCBase._apply_scale(y, yscale, yax)\n",
+      "        ys = RTDCBase._apply_scale(y, yscale, yax)\n"
+      "        xs_finite = np.array(xs, dtype=float, copy=True)\n"
+      "        xs_finite[np.isinf(xs_finite)] = np.nan\n", 0)),
     ("scatter: positions via flatnonzero", CORE,
      ("            mids = np.where(self.filter.all)[0]\n",
       "            mids = np.flatnonzero(self.filter.all)\n")),
